@@ -385,3 +385,27 @@ SPECS["C05"] = dict(
         dict(id="race", run="^TestC05RaceAndConfinement$", quick=dict(shards=4, checks=80, timeout=600, shrinktime=20, env={"GOMAXPROCS": 8}), thorough=dict(shards=4, checks=400, timeout=3400, shrinktime=120, env={"GOMAXPROCS": 8})),
     ]) for tg in ["", "poll_opt,gc_opt"]],
 )
+
+VSHIM = "github.com/panjf2000/gnet/v2/internal/vshim/vunix"
+VSHIM_MAP = ",".join("unix.%s=%s" % (f, VSHIM) for f in ["Read", "Write", "Writev", "Close", "Accept4", "EpollCtl", "EpollWait", "Recvfrom", "Sendto", "Send"])
+SHIM_INSTR = [
+    ["-map", VSHIM_MAP, "connection_unix.go", "eventloop_unix.go", "acceptor_unix.go", "pkg/io/io_linux.go", "pkg/socket/sock_cloexec.go", "pkg/netpoll/poller_epoll_default.go"],
+    ["-map", VSHIM_MAP, "-ident", "epollCtl=vEpollCtlF,epollWait=vEpollWaitF", "pkg/netpoll/poller_epoll_ultimate.go"],
+]
+
+SPECS["C18"] = dict(
+    level="fault_enumeration",
+    technique="fault injection by generated / enumerated plans through a system-call shim (unix.* call sites re-qualified at check time), with checked echo traffic on bystander connections and a descriptor ledger",
+    rule="a case is a configuration (LT/ET x reactor/reuseport x tcp/unix), a fault (site = caller function x system call on the I/O path; errno from a realistic table; the k-th call on the victim's descriptor, k up to 2 quick / 8 thorough) and optionally a second fault, "
+         "with 2..4 bystander connections carrying verified echo traffic (Write/Writev/AsyncWrite handlers); fatal faults (ECONNRESET/EPIPE/ETIMEDOUT/ENOTCONN on read/write/writev, ENOMEM/ENOSPC on epoll_ctl) must close exactly the victim with one OnClose carrying a non-nil error (none if never opened), "
+         "transient ones (EAGAIN in LT mode, EINTR on epoll_wait, EINTR/ECONNABORTED/ECONNRESET on accept) must be invisible, failures of epoll_ctl DEL / close(2) while the victim is being closed change nothing else; afterwards a stale AsyncWrite on the victim completes with net.ErrClosed, a fresh connection echoes, "
+         "bystanders echo exactly and saw no OnClose, no panic, and the ledger shows every accepted descriptor closed exactly once and no I/O on a closed one; non-trivial = the fault was actually delivered (the k-th call happened); distinct = distinct (configuration, fault plan)",
+    assumptions=["faults are returned instead of performing the system call (close(2) is performed and then reported as failed)", "EAGAIN is injected in LT mode only (in ET no new edge would follow a faked EAGAIN)", "engine-level failures such as EMFILE on accept stop the engine by design and are not injected"],
+    overlay=["verifx/c18", "internal/vshim", "pkg/netpoll/zz_verif_vshim_poll_opt.go"] + FX_OVERLAY,
+    instrument=SHIM_INSTR,
+    max_parallel=12,
+    jobs=engine_jobs("c18", "./verifx/c18", [
+        dict(id="enumerate", run="^TestC18Enumerate$", rapid=False, quick=dict(shards=6, timeout=900), thorough=dict(shards=8, timeout=3400)),
+        dict(id="random", run="^TestC18Random$", quick=dict(shards=3, checks=40, timeout=900, shrinktime=30), thorough=dict(shards=4, checks=1500, timeout=3400, shrinktime=300)),
+    ]),
+)
